@@ -11,6 +11,7 @@ from vlib import gen_circ, gen_prog, progeval, sims, synthcheck
 ID = "C13"
 SHARDS = 32
 TOL = 1e-8
+CASE_TIMEOUT = 60  # seconds per case; a timed-out case is counted as skipped (symbolic blow-up on long feedback runs), never as a verdict
 RULE = (
     "Hypothesis generates circuits on 1..5 qubits restricted, per exporter, to the gates that exporter handles (qiskit: X Y Z H S T P CX CZ "
     "CP CCX MCX MCZ mctrl(X) SWAP barrier; cirq: the same without P; sympy: X H CX SWAP CCX MCX barrier on <=4 qubits; QASM 2/3: all), plus compiled "
